@@ -5,7 +5,7 @@
    for it.  Batches and scripts are ARBITRARY; run_batch is a structurally recursive total
    function (no fuel), which is the model-level statement of "the batch ends". *)
 From Coq Require Import String.
-From V Require Import C11_Spec C11_Proofs.
+From V Require Import C11_Spec C11_Proofs C11_ProcProofs.
 Open Scope nat_scope.
 
 (* exactly one outcome for every case of the batch, none for anything else *)
@@ -24,7 +24,9 @@ Theorem outcome_as_specified : forall sv cs i c,
 Proof. exact outcome_as_specified_proof. Qed.
 Print Assumptions outcome_as_specified.
 
-(* affected cases are setup errors: never passes, never plain failures, never missing *)
+(* affected cases are setup errors: never passes, never plain failures, never missing.
+   sv ranges over BOTH ways a server can be gone after s_dead sends: exit status 0 (s_clean
+   = true, result() is nil) and an error — see also dead_server_either_flavour below *)
 Theorem setup_on_fault : forall sv cs i c,
   distinct cs -> well_named cs -> nth_error cs i = Some c ->
   prefault sv = true \/ fault_point sv cs <= i ->
@@ -93,10 +95,65 @@ Theorem sends_ok_spec : forall cs k,
 Proof. exact sends_ok_spec_proof. Qed.
 Print Assumptions sends_ok_spec.
 
+(* a server that exits with status 0 is as dead as one that crashes: same outcomes, same
+   everything (whenDone's action cancels the batch context whatever the result is) *)
+Theorem dead_server_either_flavour : forall er st wf rp tls dd rs rc se cl cs,
+  run_batch er (mkServer st wf rp tls dd rs rc se cl) cs =
+  run_batch er (mkServer st wf rp tls dd rs rc se (negb cl)) cs.
+Proof. exact flavour_irrelevant_proof. Qed.
+Print Assumptions dead_server_either_flavour.
+
+(* process.go, cmdProcess: for EVERY child behaviour (exits at once, late, ignores SIGTERM,
+   reacts or not to the forced close of its pipes, cannot even be killed, leaves a descendant
+   holding the pipe, had exited before) and ALL durations with a WaitDelay: abort(); result()
+   returns after at most the two waits of abort's goroutine; by then + WaitDelay the child is
+   gone or has been sent SIGKILL; if WaitDelay is not longer than the two waits this holds
+   already when result() returns, and a child that can be killed IS gone by then; the pipes
+   are closed by force at most once *)
+Theorem abort_bounded : forall P ch,
+  p_giveup P = true -> (0 < p_wd P)%N ->
+  let r := cmd_stop P ch in
+  returns_by (pr_ret r) (p_grace P + p_grace2 P)%N /\
+  returns_by (pr_ret r) (stop_deadline P) /\
+  (ch_pre ch <> None \/ gone_by (child_end P ch) (stop_deadline P) = true \/
+   kill_sent_by P ch (stop_deadline P) = true) /\
+  ((p_wd P <= p_grace P + p_grace2 P)%N -> pr_dead r = true \/ pr_killed r = true) /\
+  ((p_wd P <= p_grace P + p_grace2 P)%N -> ch_killable ch = true -> pr_dead r = true) /\
+  pr_force r <= 1.
+Proof. exact abort_bounded_proof. Qed.
+Print Assumptions abort_bounded.
+
+(* ... instantiated with the durations of the compiled code (C11_Consts.v, regenerated on
+   every run): not provable any more when runCommand sets no WaitDelay *)
+Theorem abort_bounded_code : forall ch,
+  let r := cmd_stop (code_params c11_wait_delay_ms) ch in
+  returns_by (pr_ret r) (c11_grace_ms + c11_grace2_ms)%N /\
+  (pr_dead r = true \/ pr_killed r = true) /\
+  (ch_killable ch = true -> pr_dead r = true).
+Proof. exact abort_bounded_code_proof. Qed.
+Print Assumptions abort_bounded_code.
+
+(* localProcess: result() gives up after one period *)
+Theorem local_bounded : forall P lc,
+  let r := local_stop P lc in
+  returns_by (pr_ret r) (p_grace P) /\ (local_stop_again P lc <= p_grace P)%N /\ pr_force r = 0.
+Proof. exact local_bounded_proof. Qed.
+Print Assumptions local_bounded.
+
+(* runTestCasesForServer: for every batch, every fault script and every kind of server process
+   the time spent in its abort(); result() pairs (one on the early paths, two otherwise) is
+   bounded — no WaitDelay needed for that *)
+Theorem batch_stop_bounded : forall P pk sv cs, p_giveup P = true ->
+  returns_by (batch_stop_time P pk (run_batch false sv cs))
+             (N.max (p_grace P + p_grace2 P) (p_grace P + p_grace P)).
+Proof. exact batch_stop_bounded_proof. Qed.
+Print Assumptions batch_stop_bounded.
+
 (* ---- non-vacuity ---- *)
 Definition cse (n : string) (ok : bool) (a : ans) (d : nat) : case := mkCase (bs n) ok a d (bs n) [].
 Arguments cse n%string ok a d.
-Definition srv (dead : option nat) : server := mkServer true WOk (RValid false) false dead false false [].
+Definition srv (dead : option nat) : server := mkServer true WOk (RValid false) false dead false false [] false.
+Definition srv0 (dead : option nat) : server := mkServer true WOk (RValid false) false dead false false [] true.
 Definition kinds (r : result) (ns : list bytes) : list (option okind) := map (fun n => final n (r_log r)) ns.
 Definition a := bs "a". Definition b := bs "b". Definition c := bs "c".
 
@@ -124,7 +181,7 @@ Proof. vm_compute. reflexivity. Qed.
 
 (* both sides of `affected` occur; TLS without certificate affects everything *)
 Example ex_nocert :
-  kinds (run_batch false (mkServer true WOk (RValid false) true None false false []) [cse "a" true APass 0]) [a] = [Some KSetup].
+  kinds (run_batch false (mkServer true WOk (RValid false) true None false false [] false) [cse "a" true APass 0]) [a] = [Some KSetup].
 Proof. vm_compute. reflexivity. Qed.
 
 (* failRemaining matters: a client that reports a's result under b's name leaves a to it *)
@@ -143,7 +200,54 @@ Proof. vm_compute. reflexivity. Qed.
 (* side-band: attributed, foreign name, nested ": ", blank, unterminated *)
 Example ex_sideband :
   let r := run_batch false (mkServer true WOk (RValid false) false None true false
-             (bs "a: m1" ++ [10%N] ++ bs "zz: m2" ++ [10%N] ++ bs "  " ++ [10%N] ++ bs " b: x: y "))
+             (bs "a: m1" ++ [10%N] ++ bs "zz: m2" ++ [10%N] ++ bs "  " ++ [10%N] ++ bs " b: x: y ") false)
              [cse "a" true APass 0; cse "b" true APass 0] in
   (r_sbs r, r_fwd r) = ([(bs "a", bs "m1"); (bs "b", bs "x: y")], [bs "zz: m2" ++ [10%N]]).
 Proof. vm_compute. reflexivity. Qed.
+
+(* the server exits with status 0 after two of four requests: the other two are setup errors *)
+Example ex_clean_exit_after_2 :
+  kinds (run_batch false (srv0 (Some 2)) [cse "a" true APass 0; cse "b" true AFail 0; cse "c" true APass 0; cse "d" true APass 0])
+        [a; b; c; bs "d"] = [Some KPass; Some KFail; Some KSetup; Some KSetup].
+Proof. vm_compute. reflexivity. Qed.
+
+(* ---- process.go ---- *)
+Definition P5 (wd : N) (giveup : bool) : params := mkP 5000 5000 wd giveup.
+Definition stubborn : child := mkChild None TIgnore None true false.    (* ignores SIGTERM *)
+Definition stuck : child := mkChild None TIgnore None false false.      (* cannot even be killed *)
+Definition proj (r : pres) := (pr_ret r, pr_class r, pr_dead r, pr_killed r, pr_force r).
+
+(* killed when WaitDelay is over; the forced close is not reached (first wins the tie) *)
+Example ex_stubborn : proj (cmd_stop (P5 4000 true) stubborn) = (Some 4000%N, CSignal, true, true, 0).
+Proof. vm_compute. reflexivity. Qed.
+(* a stuck process: closed by force once, given up after both periods *)
+Example ex_stuck : proj (cmd_stop (P5 5000 true) stuck) = (Some 10000%N, CGaveUp, false, true, 1).
+Proof. vm_compute. reflexivity. Qed.
+(* exits one second after the signal with status 7; with status 0 after cmd.Cancel: context.Canceled *)
+Example ex_late : proj (cmd_stop (P5 5000 true) (mkChild None (TExit 1000 7) None true false)) = (Some 1000%N, CExit, true, false, 0)
+               /\ pr_class (cmd_stop (P5 5000 true) (mkChild None (TExit 0 0) None true false)) = CCanceled.
+Proof. vm_compute. split; reflexivity. Qed.
+(* a descendant holds the pipe: cmd.Wait returns when os/exec closes it *)
+Example ex_holder : proj (cmd_stop (P5 5000 true) (mkChild None (TExit 0 3) None true true)) = (Some 5000%N, CExit, true, false, 0).
+Proof. vm_compute. reflexivity. Qed.
+(* reacts to the forced close only *)
+Example ex_close : proj (cmd_stop (P5 0 true) (mkChild None TIgnore (Some 2000%N) false false)) = (Some 7000%N, CCanceled, true, false, 1).
+Proof. vm_compute. reflexivity. Qed.
+(* had exited with status 0 before anybody asked: result() is nil *)
+Example ex_pre : proj (cmd_stop (P5 5000 true) (mkChild (Some 0%N) TIgnore None true false)) = (Some 0%N, CNil, true, false, 0).
+Proof. vm_compute. reflexivity. Qed.
+
+(* ONE timer for both waits (the second wait then has no time-out): abort_bounded fails —
+   result() never returns for a stuck process *)
+Example shared_timer_refuted : pr_ret (cmd_stop (P5 5000 false) stuck) = None.
+Proof. vm_compute. reflexivity. Qed.
+(* no WaitDelay: abort_bounded fails — result() returns after both periods with the
+   process alive and never sent SIGKILL *)
+Example no_wait_delay_refuted : proj (cmd_stop (P5 0 true) stubborn) = (Some 10000%N, CGaveUp, false, false, 1).
+Proof. vm_compute. reflexivity. Qed.
+
+(* localProcess that never returns: 5 s in result(), and 5 s again in the deferred one *)
+Example ex_local_stuck :
+  stop_time (P5 0 true) (PLocal (mkLc false None false)) 2 = Some 10000%N /\
+  pr_class (local_stop (P5 0 true) (mkLc false None false)) = CDeadline.
+Proof. vm_compute. split; reflexivity. Qed.
